@@ -1,5 +1,6 @@
 import Driver.GraphIO
 import EchoVerif.Model.Tick
+import EchoVerif.Model.TickDigest
 import EchoVerif.Generated.Radix
 import EchoVerif.Generated.Conflict
 
@@ -78,12 +79,15 @@ def failStr : Fail → String
   | .mergeConflict => "err commit:InternalCorruption__merge_parallel_deltas:_conflicting_ops_share_sort_key__"
   | .applyFailed => "err commit:InternalCorruption__apply_reserved_rewrites:_failed_to_apply_ops__"
 
+/-- `POLICY_ID_NO_POLICY_V0 = u32::from_le_bytes(*b"NOP0")` (the harness builds the engine with the default) -/
+def policyId : Nat := 0x30504F4E
+
 def tickCfg : Cfg := { sort := Generated.sortCfg, confl := Generated.conflictCfg }
 
 def tickLine : P String := do
   let pre ← state
-  let _rw ← id32
-  let _rn ← id32
+  let rw ← id32
+  let rn ← id32
   let kind ← tok
   let radix ← (match kind with
     | "radix" => pure true
@@ -103,7 +107,12 @@ def tickLine : P String := do
       let r := if e.cand.rule = 0 then "a" else "b"
       if e.applied then s!" {r} {id32Tok e.cand.warp} {id32Tok e.cand.scope} A"
       else s!" {r} {id32Tok e.cand.warp} {id32Tok e.cand.scope} R {e.blockers.length} " ++ " ".intercalate (e.blockers.map toString))
-    pure (s!"apply {ap} ; receipt {s.entries.length}" ++ String.join ent ++ s!" ; patch {opsStr s.patch} ; post {stateStr s.post}")
+    -- digests as pre-images (evaluated by `harness hashx` with the real BLAKE3)
+    let ctx : TickDigest.Ctx := { root := (rw, rn), policy := policyId, ruleIds := [ruleBase, ruleBase + 1], parents := [] }
+    let d := TickDigest.digestsOf ctx s
+    let dig := s!" ; policy {policyId} ; root {d.root.render} ; patchdigest {d.patch.render} ; commit {d.commit.render}" ++
+      s!" ; receiptdigest {d.receipt.render} ; plan {d.plan.render} ; rewrites {d.rewrites.render}"
+    pure (s!"apply {ap} ; receipt {s.entries.length}" ++ String.join ent ++ s!" ; patch {opsStr s.patch} ; post {stateStr s.post}" ++ dig)
 
 def handlers : List (String × (List String → String)) :=
   [("C01.tick", runP tickLine)]
